@@ -29,6 +29,8 @@ func C05(c *Ctx) {
 	c05PutBack(c)
 	c05Rollback(c, "C05.K4.rollback")
 	c05Reaper(c)
+	c05Search(c)
+	c05Sweep(c)
 }
 
 func bigCallOnField(call ssa.CallInstruction, method, field string) bool {
